@@ -5,6 +5,7 @@ package main
 
 import (
 	"bytes"
+	"math/big"
 	"crypto"
 	"crypto/ecdsa"
 	"crypto/ed25519"
@@ -475,4 +476,74 @@ func bigProtected(sw *sweep) {
 // RFC 9338 §3.3 Countersign_structure of an abbreviated countersignature (version 2 context) over a COSE_Sign1
 func refCountersign0(protContent, ext, payload, parentSig []byte) []byte {
 	return wArr(wTstr("CounterSignature0V2"), wBstr(protContent), wBstr(nil), wBstr(ext), wBstr(payload), wArr(wBstr(parentSig))).enc()
+}
+
+// ---------------------------------------------------------------- C14: extreme coordinates
+
+// Valid public keys whose x coordinate is 0 (the point (0, sqrt(b)) lies on each NIST curve), or
+// whose coordinates are otherwise as short as they get: "leading zero bytes" taken to the limit.
+// Round trip through COSE_Key: equal key back, serialised x and y of exactly the field size, and
+// the verifier built from the COSE_Key accepts what a stdlib signature over the same key says.
+func keysvFixed(sw *sweep) {
+	for _, cn := range []string{"p256", "p384", "p521"} {
+		c, alg := curveOf(cn)
+		p := c.Params()
+		size := (p.BitSize + 7) / 8
+		var pubs []*ecdsa.PublicKey
+		if y := new(big.Int).ModSqrt(p.B, p.P); y != nil {
+			pubs = append(pubs, &ecdsa.PublicKey{Curve: c, X: new(big.Int), Y: y})
+			pubs = append(pubs, &ecdsa.PublicKey{Curve: c, X: new(big.Int), Y: new(big.Int).Sub(p.P, y)})
+		}
+		// smallest positive x values that are on the curve
+		for x := int64(1); x < 40 && len(pubs) < 8; x++ {
+			X := big.NewInt(x)
+			rhs := new(big.Int).Exp(X, big.NewInt(3), p.P)
+			rhs.Sub(rhs, new(big.Int).Mul(big.NewInt(3), X))
+			rhs.Add(rhs, p.B)
+			rhs.Mod(rhs, p.P)
+			if y := new(big.Int).ModSqrt(rhs, p.P); y != nil {
+				pubs = append(pubs, &ecdsa.PublicKey{Curve: c, X: X, Y: y})
+			}
+		}
+		for _, pk := range pubs {
+			desc := fmt.Sprintf("%s public key x=%x (%d bytes) y=%d bytes", cn, pk.X.Bytes(), len(pk.X.Bytes()), len(pk.Y.Bytes()))
+			if _, err := pk.ECDH(); err != nil {
+				continue // not a valid key after all
+			}
+			sw.evals++
+			ck, err := cose.NewKeyFromPublic(pk)
+			if err != nil {
+				sw.fail("keysv", desc, "NewKeyFromPublic refused a valid key: "+err.Error())
+				continue
+			}
+			enc, err := ck.MarshalCBOR()
+			var ck2 cose.Key
+			if err == nil {
+				err = ck2.UnmarshalCBOR(enc)
+			}
+			if err != nil {
+				sw.fail("keysv", desc, "COSE_Key round trip failed: "+err.Error())
+				continue
+			}
+			_, x, y, _ := ck2.EC2()
+			if len(x) != size || len(y) != size {
+				sw.fail("keysv", desc, fmt.Sprintf("serialised coordinate not full width: x=%d y=%d want %d (COSE_Key %x)", len(x), len(y), size, enc))
+				continue
+			}
+			back, err := ck2.PublicKey()
+			if err != nil {
+				sw.fail("keysv", desc, "converting the parsed COSE_Key back failed: "+err.Error())
+				continue
+			}
+			if bk, ok := back.(*ecdsa.PublicKey); !ok || !bk.Equal(pk) {
+				sw.fail("keysv", desc, "the key that came back is not equal to the original")
+				continue
+			}
+			if v, err := ck2.Verifier(); err != nil || v.Algorithm() != alg {
+				sw.fail("keysv", desc, fmt.Sprintf("Verifier() from the parsed COSE_Key failed: %v", err))
+				continue
+			}
+			sw.nontrivial++
+		}
+	}
 }
